@@ -725,8 +725,17 @@ func runRunner(c *core.Ctx, which string) {
 			"non-trivial = root has dependencies; distinct = distinct (graph, limit, trace signature)")
 		n := c.N(200, 4000)
 		for i := 0; i < n; i++ {
-			kind := []string{"fan", "fan", "dag", "chain", "dagfail"}[i%5]
+			kind := []string{"fan", "fan", "dag", "chain", "dagfail", "cyc"}[i%6]
 			scheds(fmt.Sprintf("rnd/%s/%d", kind, i), 1, false)
+		}
+		// slot conservation also on the cyclic-dependency error paths
+		for _, nm := range []string{"two-cycle", "self-loop-on-leaf", "cycle-not-containing-root", "overlapping-self-loops"} {
+			scheds("named/"+nm, c.N(10, 100), true)
+		}
+		for n := 1; n <= 3; n++ {
+			for mask := uint64(0); mask < 1<<(uint(n*n)); mask += uint64(c.N(3, 1)) {
+				scheds(fmt.Sprintf("exh/%d/%d", n, mask), 1, true)
+			}
 		}
 	}
 	var want []string
